@@ -100,6 +100,22 @@ theorem sandbox_hidden_fields_deref (cfg : Cfg) (hf : cfg.fieldCheck = true) (hr
   have hgf := sandbox_hidden_fields_reference cfg hf hr name field o v env ho hv hh
   simp [eval, guardCheck, Expr.kind, h1, h2, h3, bind, M.bind, evalNode, chk, pure, M.pure, Value.toStr, hgf]
 
+/-- **sandbox_hidden_fields_import** (vmops.hpp:43-53).  After `using <object>` a BARE identifier is looked up in
+    the imported object; that read goes through the same no_user_view rule, provided `FindVarImport` hands the
+    frame's sandbox flag to `GetField`. -/
+theorem sandbox_hidden_fields_import (cfg : Cfg) (hf : cfg.fieldCheck = true) (hi : cfg.importSandboxed = true)
+    (hng : ∀ k, k ∈ ["VariableExpression", "LiteralExpression"] → cfg.guard k = false)
+    (name field : String) (o : Obj) (v : Value) (env : Env) (n : Nat) (rest : List Expr)
+    (hl : lookup field env.locals = none)
+    (ho : lookup name env.prot.objects = some o) (hv : lookup field o.attrs = some v)
+    (hh : cfg.hidden o.type field = true) :
+    (eval cfg true (n + 2) (.varIn (.lit (.obj name) :: rest) field) env).1 = .error (.hidden o.type field) := by
+  have h1 := hng "VariableExpression" (by simp)
+  have h2 := hng "LiteralExpression" (by simp)
+  have hgf := sandbox_hidden_fields cfg hf name field o v env ho hv hh
+  simp [eval, guardCheck, Expr.kind, h1, h2, bind, M.bind, M.get, evalNode, findImport, chk, pure, M.pure, hl,
+    hasOwnField, ho, hv, hi, hgf]
+
 /-- **model_obs_meets_spec.**  Under the hypotheses of the noninterference theorem every observation the
     model can produce for a sandboxed program satisfies the specification predicate that the driver
     evaluates on the implementation's observations. -/
@@ -145,6 +161,9 @@ theorem call_and_field_checks_present :
 theorem reference_checks_present :
     SandboxGuards.refGetSandboxed = true ∧ SandboxGuards.initDictOff = true ∧
     genSafe "Reference#set" = some false ∧ genSafe "Reference#get" = some true := by decide
+
+/-- `VMOps::FindVarImport` reads an imported name through `GetField(…, frame.Sandboxed, …)` (vmops.hpp:43-53). -/
+theorem import_reads_respect_sandbox : SandboxGuards.importReadSandboxed = true := by decide
 
 /-- Every native that invokes a script-supplied function AND is flagged side-effect free tests the
     callback's own flag under `Sandboxed` first (array-script.cpp:83-212). -/
@@ -290,6 +309,13 @@ example : (eval { exCfg with refGetSandboxed := false } true 9
             (.deref (.ref (.index (.lit (.obj "u")) (.lit (.str "password"))))) exEnv).1 = .ok (.str "secret", .ok) := by decide
 example : (eval exCfg true 9 (.deref (.ref (.var "g"))) exEnv).1 = .ok (.num 5, .ok) := by decide
 example : (eval exCfg false 9 (.setDeref (.ref (.var "g")) .add (.lit (.num 1))) exEnv).2.prot.globals = [("g", .num 6)] := by decide
+-- `using u` then the bare identifier `password`: refused sandboxed, readable otherwise, and readable sandboxed if
+-- FindVarImport did not pass the flag on
+example : (eval exCfg true 9 (.varIn [.lit (.obj "u")] "password") exEnv).1 = .error (.hidden "ApiUser" "password") := by decide
+example : (eval exCfg false 9 (.varIn [.lit (.obj "u")] "password") exEnv).1 = .ok (.str "secret", .ok) := by decide
+example : (eval { exCfg with importSandboxed := false } true 9 (.varIn [.lit (.obj "u")] "password") exEnv).1
+    = .ok (.str "secret", .ok) := by decide
+example : (eval exCfg true 9 (.varIn [.lit (.obj "u")] "g") exEnv).1 = .ok (.num 5, .ok) := by decide
 -- init_dict: unsandboxed, `globals.d.x = 1` first creates the missing `d`
 example : (eval exCfg false 9 (.setField (.index (.getScope .globals) (.lit (.str "d"))) "x" .literal (.lit (.num 1))) exEnv).2.prot.globals
     = [("g", .num 5), ("d", .dict [])] := by decide
